@@ -24,6 +24,29 @@ theorem slice_denote_inv {p : SConn} {idx : Index} {bs : List Bit} (h : (SConn.s
       simp only [hi] at h
       exact ⟨pbs, inner, rfl, hi, h⟩
 
+/-- Splicing concatenation entries one level does not change the denoted bits. -/
+theorem denoteList_splice : ∀ (ls : List SConn) (bs : List Bit), denoteList ls = .ok bs → denoteList (splice ls) = .ok bs
+  | [], bs, h => by rw [splice]; exact h
+  | x :: rest, bs, h => by
+    rw [denoteList_cons] at h
+    cases hx : x.denote with
+    | error e => simp [hx] at h
+    | ok xa =>
+      simp only [hx] at h
+      cases hr : denoteList rest with
+      | error e => simp [hr] at h
+      | ok rb =>
+        simp only [hr] at h
+        injection h with h; subst h
+        have ihr := denoteList_splice rest rb hr
+        cases x with
+        | concat ps =>
+          rw [splice]
+          rw [denote_concat] at hx
+          exact denoteList_append ps (splice rest) xa rb hx ihr
+        | sig n w => rw [splice, denoteList_cons, hx, ihr]
+        | slice p i => rw [splice, denoteList_cons, hx, ihr]
+
 theorem resolve_sound : ∀ fuel, ResolveSound fuel
   | 0 => by
     refine ⟨?_, ?_, ?_, ?_⟩
@@ -189,7 +212,7 @@ theorem resolve_sound : ∀ fuel, ResolveSound fuel
             | ok xb => simp [hx] at dl; rw [dl]
           | x :: y :: rest, h, dl =>
             injection h with h; subst h
-            rw [denote_concat]; exact dl
+            rw [denote_concat]; exact denoteList_splice _ bs dl
       | concat ps =>
         rw [resolveSliceable] at h
         split at h
@@ -259,6 +282,29 @@ theorem exportableList_iff (ps : List SConn) :
 theorem exportable_concat (ps : List SConn) :
     (SConn.concat ps).exportable = true ↔ ∀ x ∈ ps, x.exportable = true := by
   rw [SConn.exportable]; exact exportableList_iff ps
+
+/-- A predicate that holds of a concatenation iff it holds of its parts survives splicing. -/
+theorem splice_all (P : SConn → Prop) (hc : ∀ ps, P (.concat ps) ↔ ∀ x ∈ ps, P x) :
+    ∀ (ls : List SConn), (∀ x ∈ ls, P x) → ∀ x ∈ splice ls, P x
+  | [], _ => by intro x hx; rw [splice] at hx; cases hx
+  | .concat ps :: rest, h => by
+    intro x hx
+    rw [splice] at hx
+    rcases List.mem_append.1 hx with hx | hx
+    · exact (hc ps).1 (h _ (by simp)) x hx
+    · exact splice_all P hc rest (fun y hy => h y (by simp [hy])) x hx
+  | .sig n w :: rest, h => by
+    intro x hx
+    rw [splice] at hx
+    rcases List.mem_cons.1 hx with hx | hx
+    · rw [hx]; exact h _ (by simp)
+    · exact splice_all P hc rest (fun y hy => h y (by simp [hy])) x hx
+  | .slice p i :: rest, h => by
+    intro x hx
+    rw [splice] at hx
+    rcases List.mem_cons.1 hx with hx | hx
+    · rw [hx]; exact h _ (by simp)
+    · exact splice_all P hc rest (fun y hy => h y (by simp [hy])) x hx
 
 /-- Everything the resolver returns is made of signals and slices taken directly from signals. -/
 def ResolveFlat (fuel : Nat) : Prop :=
@@ -370,7 +416,7 @@ theorem resolve_flat : ∀ fuel, ResolveFlat fuel
           | [x], h, fl => injection h with h; rw [← h]; exact fl x (by simp)
           | x :: y :: rest, h, fl =>
             injection h with h; subst h
-            exact (exportable_concat _).2 fl
+            exact (exportable_concat _).2 (splice_all (fun c => c.exportable = true) (fun ps => exportable_concat ps) _ fl)
       | concat ps =>
         rw [resolveSliceable] at h
         split at h
@@ -557,7 +603,7 @@ theorem resolve_keeps (P : SConn → Prop) (lp : LeafPred P) : ∀ fuel, Resolve
           | [x], h, fl => injection h with h; rw [← h]; exact fl x (by simp)
           | x :: y :: rest, h, fl =>
             injection h with h; subst h
-            exact (lp.concat _).2 fl
+            exact (lp.concat _).2 (splice_all P lp.concat _ fl)
       | concat ps =>
         rw [resolveSliceable] at h
         split at h
